@@ -100,6 +100,10 @@ func (e *Evidence) UnmarshalCOSE(cwt []byte) error {
 	}
 
 	if e.Claims, err = DecodeClaimsFromCBOR(e.message.Payload); err != nil {
+		// a failed decode leaves no envelope behind: the message would
+		// otherwise still verify although the operation failed
+		e.message = cose.NewSign1Message()
+
 		return fmt.Errorf("failed CBOR decoding of PSA claims: %w", err)
 	}
 
